@@ -170,15 +170,19 @@ Qed.
 End Run.
 
 (* ---------------------------------------------------------------- a legal call sequence that
-   the real code answers with internal_error (replayed on the implementation: "HashTorrent::start()
-   call failed."): hash_check(false) runs into an I/O error (error notification scheduled),
-   hash_check(true) is issued before the scheduler ran, the stale timer then confirms the quick
-   check at position 1, and the next hash_check(false) finds m_position > 0. *)
-Theorem recheck_before_notification_refuted :
+   the code answered with internal_error ("HashTorrent::start() call failed.", replayed on the
+   implementation) as long as HashTorrent::start did not erase a timer left over from an earlier
+   check: hash_check(false) runs into an I/O error (error notification scheduled), hash_check(true)
+   is issued before the scheduler ran, the stale timer then confirms the quick check at position 1,
+   and the next hash_check(false) finds m_position > 0.  The hypothesis is the re-extracted fact
+   about the source; once the source erases the timer it is false and the witness is harmless. *)
+Theorem recheck_stale_delay_timer_refuted :
+  (Params.c09_start_erases_delay =? 0)%N = true ->
   exists (fs : list fnode) (ops : list op),
     s_ierr (run (fun b => b) 1100%N (fun _ => []) ops (init fs)) = true.
 Proof.
+  intros Hp.
   exists [fresh_file 1100%N false Absent; fresh_file 1100%N false Unreadable].
   exists [OOpen; OCheck false; OCheck true; OTick; OCheck false].
-  vm_compute. reflexivity.
+  revert Hp. vm_compute. intros Hq; first [reflexivity | exact Hq].
 Qed.
